@@ -635,6 +635,8 @@ def run_c17(tier, seed, replay=None):
                 ms = inst.get('max_states')
                 if tier == 'quick':
                     ms = min(ms or 10**9, 1200)
+                else:
+                    ms = min(ms or 10**9, 5000)        # (every run is kept on disk until its pair is compared)
                 if job.get('random_only'):
                     extra += ['--max-states', '0']
                 elif ms:
